@@ -724,6 +724,22 @@ func (w *world) do(c command) (outcome string) {
 				return
 			}
 			outcome = "ok"
+		case "RECORD":
+			// engine.processSteps up to and including SaveRaftState; onSnapshotSaved
+			// (the flag removal) has not run yet
+			if !w.snap.VerifHasFlagFile(c.i) {
+				outcome = "skip"
+				return
+			}
+			ss, ok := w.recvSS[c.i]
+			if !ok {
+				ss = pb.Snapshot{ShardID: shardID, Index: c.i, Term: 1}
+			}
+			if err := w.ldb.SaveRaftState([]pb.Update{{ShardID: shardID, ReplicaID: replicaID, Snapshot: ss}}, 0); err != nil {
+				outcome = "err"
+				return
+			}
+			outcome = "ok"
 		case "SHRINK":
 			if err := w.snap.VerifShrink(c.i); err != nil {
 				outcome = "err"
